@@ -283,6 +283,13 @@ func vParam(name string, def int) int {
 }
 func vEngine() bool { return false }
 
+// vReplayDraws natively: rewind the scripted source to where draw `from` began.
+func vReplayDraws(from int) {
+	if from < len(verifDrawLog) {
+		vTapePos = verifDrawLog[from].Pos
+	}
+}
+
 // vTapeRewind: serve the same source bytes again from the start.
 func vTapeRewind() { vTapePos = 0 }
 func vOr(a, b bool) bool  { return a || b }
